@@ -77,6 +77,25 @@ def generate(groups=None, only=None, out=None, quiet=False):
     reg += ['  | _ => none', '', 'end EPV.GenF', '']
     if write_if_changed(os.path.join(out, 'Registry.lean'), '\n'.join(reg)):
         changed.append('Registry.lean')
+    # registry of the hand-written executable models: every `-- driver: <name> <Lean function>`
+    # line in lean/EPV/Model/*.lean registers a dispatcher  List String → String
+    mdir = os.path.join(os.path.dirname(out), 'Model')
+    drivers = []
+    for fn in sorted(os.listdir(mdir)) if os.path.isdir(mdir) else []:
+        if not fn.endswith('.lean'):
+            continue
+        for line in open(os.path.join(mdir, fn)):
+            if line.startswith('-- driver: '):
+                nm, fun = line[len('-- driver: '):].split()[:2]
+                drivers.append((nm, fun, 'EPV.Model.' + fn[:-5]))
+    reg = ['-- GENERATED.  Registry of the hand-written executable models for the correspondence driver.', '']
+    reg += ['import %s' % m for m in sorted(set(d[2] for d in drivers))] or ['import EPV.Run.Base']
+    reg += ['', 'namespace EPV.ModelReg', '', 'def eval (model : String) (args : List String) : Option String :=',
+            '  match model with']
+    reg += ['  | "%s" => some (%s args)' % (nm, fun) for nm, fun, _ in drivers]
+    reg += ['  | _ => none', '', 'end EPV.ModelReg', '']
+    if write_if_changed(os.path.join(out, 'ModelRegistry.lean'), '\n'.join(reg)):
+        changed.append('ModelRegistry.lean')
     with open(mpath, 'w') as f:
         json.dump(manifest, f, indent=1, sort_keys=True, default=str)
     return manifest, changed
